@@ -3,7 +3,7 @@
    ISA specification Isa/X86.v, for ALL values.  The per-encoding breadth part is the in-kernel differential
    check of Isa/C01Check.v (processor + specification as oracles). *)
 From Coq Require Import ZArith List Bool NArith.
-From Falcon Require Import Base.Res IL.Const IL.ConstSpec IL.Expr IL.Func Exec.Sem Isa.X86 Isa.X86Lift Isa.X86Mirror Isa.X86Proofs Isa.X86Sim Isa.C01Check Isa.X86Tie Isa.X86SimMem Isa.X86SimStack Isa.X86SimCarry Isa.X86SimMore Isa.X86SimXchg Isa.X86SimMul Isa.X86SimShift Isa.X86SimRot Isa.X86SimCtl.
+From Falcon Require Import Base.Res IL.Const IL.ConstSpec IL.Expr IL.Func Exec.Sem Isa.X86 Isa.X86Lift Isa.X86Mirror Isa.X86Proofs Isa.X86Sim Isa.C01Check Isa.X86Tie Isa.X86SimMem Isa.X86SimStack Isa.X86SimCarry Isa.X86SimMore Isa.X86SimXchg Isa.X86SimMul Isa.X86SimShift Isa.X86SimRot Isa.X86SimCtl Isa.X86SimBt.
 Import ListNotations.
 Local Open Scope Z_scope.
 
@@ -565,3 +565,12 @@ Print Assumptions jcxz_sim.
 Theorem loop_sim : forall m addr len k t, k = 0 \/ k = 1 \/ k = 2 -> sim m addr len (ILoop k t).
 Proof. exact X86SimCtl.loop_sim. Qed.
 Print Assumptions loop_sim.
+
+(* 22. round 7: bt / bts / btr / btc with the bit offset taken modulo the operand size: register base with a register or
+   imm8 offset, memory base with an imm8 offset (not the bit-string form [m], r).  CF = the selected bit, ZF unchanged,
+   SF/OF/PF undefined in the specification; the selected bit is set / cleared / complemented *)
+Theorem bt_sim : forall m addr len (o : btop) sz dst src,
+  width_ok sz -> X86SimBt.bt_form_ok dst src = true -> X86SimMul.opnd_ok m sz dst -> X86SimMul.opnd_ok m (X86SimBt.bt_osz sz src) src ->
+  sim_when (X86SimMul.opnd_nw sz dst) m addr len (IBt o sz dst src).
+Proof. exact X86SimBt.bt_sim. Qed.
+Print Assumptions bt_sim.
